@@ -83,18 +83,21 @@ class NDNApp:
         if typ == LpTypeNumber.LP_PACKET:
             try:
                 nack_reason, fragment = parse_lp_packet(data, with_tl=True)
-            except (DecodeError, TypeError, ValueError, struct.error):
+                if fragment is None:
+                    # An LpPacket without a Fragment (e.g. IDLE) carries no network-layer packet
+                    return
+                typ, _ = parse_tl_num(fragment)
+            except (DecodeError, IndexError, TypeError, ValueError, struct.error):
                 self.logger.warning('Unable to decode received packet')
                 return
             data = fragment
-            typ, _ = parse_tl_num(data)
         else:
             nack_reason = None
 
         if nack_reason is not None:
             try:
                 name, _, _, _ = parse_interest(data, with_tl=True)
-            except (DecodeError, TypeError, ValueError, struct.error):
+            except (DecodeError, IndexError, TypeError, ValueError, struct.error):
                 self.logger.warning('Unable to decode the fragment of LpPacket')
                 return
             if self.logger.isEnabledFor(logging.DEBUG):
@@ -104,7 +107,7 @@ class NDNApp:
             if typ == TypeNumber.INTEREST:
                 try:
                     name, param, app_param, sig = parse_interest(data, with_tl=True)
-                except (DecodeError, TypeError, ValueError, struct.error):
+                except (DecodeError, IndexError, TypeError, ValueError, struct.error):
                     self.logger.warning('Unable to decode received packet')
                     return
                 if self.logger.isEnabledFor(logging.DEBUG):
@@ -113,7 +116,7 @@ class NDNApp:
             elif typ == TypeNumber.DATA:
                 try:
                     name, meta_info, content, sig = parse_data(data, with_tl=True)
-                except (DecodeError, TypeError, ValueError, struct.error):
+                except (DecodeError, IndexError, TypeError, ValueError, struct.error):
                     self.logger.warning('Unable to decode received packet')
                     return
                 if self.logger.isEnabledFor(logging.DEBUG):
